@@ -121,9 +121,16 @@ class Builder:
         else:
             self.op(op="feed", b=fr)
 
-    def preamble(self, raising_sub=False, blocking=False):
+    def preamble(self, raising_sub=False, blocking=False, sending_sub=False):
         self.op(op="sub", who="m", kind="message")
         self.op(op="sub", who="c", kind="connection")
+        if sending_sub:
+            # a connection subscriber that submits a request whenever the link comes up (as the API layer does)
+            m = {"k": "AcControlMessage", "ac_number": 0, "power": "TURN_OFF", "mode": "UNCHANGED", "fan_speed": "QUIET",
+                 "set_point_control": []} if self.proto == "at4" else \
+                {"k": "ControlStatusMessage", "sub_message": {"k": "AcControlMessage", "ac_control": [
+                    {"k": "AcControlData", "ac_number": 0, "power": "TURN_OFF", "mode": "UNCHANGED", "fan_speed": "QUIET", "set_point": []}]}}
+            self.op(op="sub", who="cs", kind="connection", sends={"msg": m, "policy": POL_CONN})
         if raising_sub:
             self.op(op="sub", who="r", kind="message", raises=True)
             self.op(op="sub", who="rc", kind="connection", raises=True)
@@ -165,7 +172,8 @@ ADV = [125, 250, 500, 875, 1000, 1125, 1875, 2000, 2125, 5000, 29875, 30000, 301
 def random_script(seed, proto="at4", n_ops=30, profile="mixed"):
     rng = random.Random(seed)
     b = Builder(proto, rng)
-    b.preamble(raising_sub=(profile in ("faults", "mixed") and rng.random() < 0.3))
+    b.preamble(raising_sub=(profile in ("faults", "mixed") and rng.random() < 0.3),
+               sending_sub=(profile in ("faults", "mixed", "retry", "close") and rng.random() < 0.4))
     w = {
         "order":  dict(send=10, step=4, quiesce=3, ok=4, refuse=2, adv=3, good=1),
         "retry":  dict(send=8, step=4, quiesce=3, ok=4, refuse=2, adv=4, fault=5, reset=2, eof=1, good=1),
